@@ -151,19 +151,34 @@ def run_case(case):
                         except Exception as e:
                             res.exception("fshift:exception", e, f"n={n} axis={ax} s={s}")
                     # per-trace integer shifts: trace i of the basis gets its own shift
-                    sv = rng.integers(-n + 1, n, idx.size).astype(float)
-                    try:
-                        Y = fshift(X, sv, axis=ax)
-                        if ax == -1:
-                            ref = np.stack([np.roll(X[i], int(sv[i])) for i in range(idx.size)])
-                        else:
-                            ref = np.stack([np.roll(X[:, i], int(sv[i])) for i in range(idx.size)], axis=1)
-                        err = np.max(np.abs(Y - ref))
-                        res.check(err <= tol(dt), "fshift:per-trace", f"n={n} axis={ax} per-trace shifts: err {err:.3g}",
-                                  counter="pertrace_checked")
-                        nt += 1
-                    except Exception as e:
-                        res.exception("fshift:per-trace:exception", e, f"n={n} axis={ax}")
+                    # (handed over as float and as integer-typed arrays)
+                    svi = rng.integers(-n + 1, n, idx.size)
+                    if ax == -1:
+                        ref = np.stack([np.roll(X[i], int(svi[i])) for i in range(idx.size)])
+                    else:
+                        ref = np.stack([np.roll(X[:, i], int(svi[i])) for i in range(idx.size)], axis=1)
+                    # (lists and 0-d arrays are not generated: the function reshapes the shift vector and tells scalars apart with numpy.isscalar)
+                    forms = {"float64 array": svi.astype(float), "int64 array": svi.astype(np.int64), "int32 array": svi.astype(np.int32), "float32 array": svi.astype(np.float32)}
+                    for fname in (["float64 array", "int64 array"] + [str(rng.choice(["int32 array", "float32 array"]))]):
+                        sv = forms[fname]
+                        try:
+                            Y = fshift(X, sv, axis=ax)
+                            err = np.max(np.abs(Y - ref)) if np.shape(Y) == ref.shape else np.inf
+                            res.check(err <= tol(dt), "fshift:per-trace" + ("" if fname == "float64 array" else ":integer-typed-shifts" if "int" in fname else ":float32-shifts"),
+                                      f"n={n} axis={ax} {np.dtype(dt).name} per-trace integer shifts given as {fname}: err {err:.3g}", counter="pertrace_checked")
+                            nt += 1
+                        except Exception as e:
+                            res.exception("fshift:per-trace:exception", e, f"n={n} axis={ax} shifts as {fname}")
+                    # scalar shifts in other numeric types than the Python int used above
+                    s0 = int(rng.integers(-n + 1, n))
+                    for sname, sval in (("numpy int64", np.int64(s0)), ("float", float(s0)), ("numpy float32", np.float32(s0))):
+                        try:
+                            Y = fshift(X, sval, axis=ax)
+                            err = np.max(np.abs(Y - np.roll(X, s0, axis=ax))) if np.shape(Y) == X.shape else np.inf
+                            res.check(err <= tol(dt) and Y.dtype == X.dtype, "fshift:integer-roll:scalar-type", f"n={n} axis={ax} {np.dtype(dt).name} shift {s0} given as {sname}: "
+                                      f"err {err:.3g}, dtype {Y.dtype}", counter="roll_checked")
+                        except Exception as e:
+                            res.exception("fshift:exception", e, f"n={n} axis={ax} shift {s0} as {sname}")
             # fractional shift on the basis: compare with the analytic Dirichlet-kernel delay (odd n: exact interpolation)
             if n % 2 == 1 and n <= 300:
                 s = float(rng.uniform(-n + 1, n - 1))
